@@ -156,6 +156,118 @@ class AddVariableValue(Contract):
         return judge(nat)
 
 
+class InitVariableValues(Contract):
+    name = f"{SB}.init_variable_values"
+    prop = ("C12",)
+    top_level = True
+    cases = ("dated-values", "undated-value-with-default-period", "undated-value-without-default-period")
+    descr = ("every (period key, value) declared for a variable of an instance goes to add_variable_value with the instance's index, "
+             "the key as written and the value; an undated value goes under the default period; a variable that is unknown or "
+             "belongs to another entity, a key that does not parse, or an undated value without default period is a situation error")
+    inline = (f"{SB}.get_ids",)
+
+    def setup(self, I, ctx, case):
+        R = I.resolve_qualified
+        if not _STR:
+            _STR.append(I.builtins["str"])
+        K = [ctx.fresh_const("key%d" % k, KEY) for k in range(2)]
+        ctx.assume(K[0] != K[1])
+        vals = [Sym(ctx.fresh_real("value%d" % k)) for k in range(2)]
+        var = Obj(R("openfisca_core.variables.variable.Variable"), {"name": "v"}, label="var:v")
+        ctx.ghost["var"] = var
+        ent = Obj(R("openfisca_core.entities.entity.Entity"), {"plural": "persons", "key": "person"}, label="entity")
+        if case == "dated-values":
+            d = DictVal()
+            d.sym = [[key_val(K[1]), vals[1]], [key_val(K[0]), vals[0]]]
+            decl = d
+        else:
+            decl = vals[0]
+        DK = ctx.fresh_const("default_key", KEY)
+        builder = Obj(R(SB), {"entity_ids": dict_of([("persons", ListVal(["a", "someone", "b"]))]), "axes_entity_ids": DictVal(),
+                              "default_period": key_val(DK) if case == "undated-value-with-default-period" else None}, label="builder")
+        return {"self": builder, "entity": ent, "instance_object": dict_of([("v", decl)]), "instance_id": "someone",
+                "__K": K, "__vals": vals, "__DK": DK, "__case": case, "__var": var}
+
+    @staticmethod
+    def local_contracts():
+        E = "openfisca_core.entities._core_entity.CoreEntity"
+        NF = "VariableNotFoundError"
+        return {PeriodOfKey.name: PeriodOfKey(),
+                f"{E}.check_variable_defined_for_entity": rec(f"{E}.check_variable_defined_for_entity", "check_defined",
+                                                              [("return", None), ("raise", "ValueError"), ("raise", "openfisca_core.errors.variable_not_found_error.VariableNotFoundError")]),
+                f"{E}.get_variable": rec(f"{E}.get_variable", "get_variable", [("return", lambda I, ctx, a: ctx.ghost["var"])]),
+                f"{SB}.add_variable_value": rec(f"{SB}.add_variable_value", "add_variable_value", [("return", None)])}
+
+    def post(self, I, ctx, a, out, old):
+        K, vals, case = a["__K"], a["__vals"], a["__case"]
+        adds = log_of(ctx, "add_variable_value")
+        chk = log_of(ctx, "check_defined")
+        res = [("variable-checked-against-the-entity-first", len(chk) >= 1 and chk[0]["args"]["variable_name"] == "v")]
+        if not chk:
+            return res
+        if chk[0]["kind"] == "raise":
+            return res + [("unknown-or-foreign-variable-is-a-situation-error", out[0] == "raise" and out[1].cls.name == "SituationParsingError" and not adds)]
+        if case == "undated-value-without-default-period":
+            return res + [("undated-value-without-default-period-is-a-situation-error",
+                           out[0] == "raise" and out[1].cls.name == "SituationParsingError" and not adds)]
+        keys = K if case == "dated-values" else [a["__DK"]]
+        if out[0] == "raise":
+            # only an unparsable key may stop it, as a situation error, and nothing after it is added
+            bad = z3.Or(*[z3.Not(VALID(k)) for k in keys])
+            return res + [("refused-only-for-a-key-that-does-not-parse-and-as-a-situation-error",
+                           z3.And(z3.BoolVal(out[1].cls.name == "SituationParsingError"), bad))]
+        res.append(("every-key-parses-when-accepted", z3.And(*[VALID(k) for k in keys])))
+        res.append(("one-value-added-per-declared-key", len(adds) == len(keys)))
+        if len(adds) != len(keys):
+            return res
+        for n, (k, c) in enumerate(zip(keys, adds)):
+            ar = c["args"]
+            pk = ar["period_str"]
+            res.append((f"value-{n + 1}-added-at-the-instance's-index-under-its-key",
+                        z3.And(z3.BoolVal(ar["instance_index"] == 1 and ar["variable"] is a["__var"] and ar["entity"] is a["entity"]
+                                          and isinstance(pk, Opaque) and pk.e is not None and ar["value"] is vals[n]),
+                               pk.e == k if isinstance(pk, Opaque) and pk.e is not None else z3.BoolVal(False))))
+        return res
+
+
+class AddDefaultGroupEntity(Contract):
+    name = f"{SB}.add_default_group_entity"
+    prop = ("C12",)
+    top_level = True
+    descr = ("persons left out of a group kind altogether are each put in a group of their own: as many groups as persons, with the "
+             "persons' ids, person i in group i, holding the first role")
+
+    def setup(self, I, ctx, case):
+        R = I.resolve_qualified
+        L = ctx.fresh_int("persons")
+        ctx.assume(L >= 1)
+        IDS = z3.Function(ctx.fresh_name("ID"), z3.IntSort(), KEY)
+        ids = SymList(SeqVal(L, lambda j: Opaque(IDS(B._z(j)), "id", {}), "persons_ids"))
+        r0, r1 = Opaque(None, "first-role", {}), Opaque(None, "second-role", {})
+        ent = Obj(I.builtins["object"], {"plural": "households", "key": "household", "flattened_roles": TupleVal([r0, r1])}, label="entity")
+        builder = Obj(R(SB), {"entity_ids": DictVal(), "entity_counts": DictVal(), "memberships": DictVal(), "roles": DictVal()}, label="builder")
+        return {"self": builder, "persons_ids": ids, "entity": ent, "__L": L, "__r0": r0, "__ids": ids}
+
+    def post(self, I, ctx, a, out, old):
+        from pyvc.interp import hkey
+        b, L = a["self"], a["__L"]
+        if out[0] != "return":
+            return [("no-exception", False)]
+        f = b.fields
+        hk = hkey("households")
+        if not all(hk in f[k].items for k in ("entity_ids", "entity_counts", "memberships", "roles")):
+            return [("group-kind-registered", False)]
+        mem, roles = I.as_seq(ctx, f["memberships"].items[hk]), I.as_seq(ctx, f["roles"].items[hk])
+        j = ctx.fresh_int("j")
+        rng = z3.And(j >= 0, j < L)
+        rj = roles.elem(j)
+        return [("groups-bear-the-persons'-ids", f["entity_ids"].items[hk] is a["__ids"]),
+                ("as-many-groups-as-persons", B._zb(B.eq_formula(I, ctx, f["entity_counts"].items[hk], B.wrap(L)))),
+                ("one-membership-and-role-per-person", z3.And(B._z(mem.length) == L, B._z(roles.length) == L)),
+                ("person-i-is-in-group-i", z3.Implies(rng, B.zint(mem.elem(j)) == j)),
+                ("every-person-holds-the-first-role", rj is a["__r0"])]
+
+
 class FinalizeVariablesInit(Contract):
     name = f"{SB}.finalize_variables_init"
     prop = ("C12",)
@@ -254,4 +366,43 @@ def judge(nat):
     return ("satisfies", "as specified") if nat["value"].get("ok") else ("violates", str(nat["value"])[:400])
 
 
-CONTRACTS = [AddVariableValue(), FinalizeVariablesInit()]
+def _situations(tier):
+    """every way of declaring 0..2 households over 1..3 persons with ids drawn from a pool that lets a person share an id with
+    a household; each person appears in at most two slots so that duplicates and unknown persons occur"""
+    import itertools
+    out = []
+    pools = (["a"], ["a", "b"], ["h1", "b"], ["a", "b", "c"], ["h1", "h2", "c"]) if tier == "quick" else \
+        (["a"], ["a", "b"], ["h1", "b"], ["b", "h1"], ["a", "b", "c"], ["h1", "h2", "c"], ["c", "h2", "h1"])
+    for persons in pools:
+        cand = persons + ["nobody"]
+        for nh in (0, 1, 2):
+            hids = ["h1", "h2"][:nh]
+            slots = [(h, r) for h in hids for r in ("parents", "children")]
+            lists = [[]] + [[x] for x in cand] + [[x, y] for x in cand for y in cand if x != y or x == persons[0]]
+            lists3 = lists + [[persons[0], persons[-1], "nobody"][:3]] if len(persons) >= 1 else lists
+            combos = itertools.product(*[(lists3 if r == "parents" else lists[: 1 + len(cand)]) for _, r in slots])
+            for k, combo in enumerate(combos):
+                if tier == "quick" and k % 3:
+                    continue
+                hh = {h: {} for h in hids}
+                for (h, r), lst in zip(slots, combo):
+                    if lst:
+                        hh[h][r] = list(lst)
+                sit = {"persons": {p: {} for p in persons}}
+                if nh:
+                    sit["households"] = hh
+                out.append(sit)
+    return out
+
+
+NATIVE_STANDINS = [
+    {"name": "group memberships, roles and own groups of persons left out (build_from_entities / add_group_entity)",
+     "where": "SimulationBuilder.add_group_entity / check_persons_to_allocate",
+     "bound": "1 to 3 persons (ids from pools in which a person may bear the id of a household), 0 to 2 households, every assignment of "
+              "up to 2 (parents: 3) listed ids incl. an undeclared one to the parents / children slots (quick: every third)",
+     "calls": lambda tier: [{"callee": "add_group_entity", "script": NATIVE, "mode": "groups", "situations": _situations(tier)}],
+     "judge": lambda nat: judge(nat)},
+]
+
+
+CONTRACTS = [AddVariableValue(), InitVariableValues(), AddDefaultGroupEntity(), FinalizeVariablesInit()]
